@@ -459,4 +459,8 @@ R.add('L16.3', l163, lambda tier: [dict(nroutes=n) for n in ((1, 2) if tier == '
       expect=['a path that matches nothing yields 404', 'dispatch routes to the route getRoute chose'],
       bounds='tables of <= 2 (thorough 3) routes from 8 patterns x {GET, POST}; request method GET/POST/unsupported; unbounded path')
 
+for _lid in ['L16.1', 'L16.2', 'L16.3']:
+    if _lid in R.lemmas:
+        R.lemmas[_lid].api = True
+
 get_harness = R.get_harness
